@@ -67,10 +67,15 @@ inductive Event
   | fc (c : Nat) (ty : Ty)                                  -- ClientID 0, token "new-client" / "anonymous:…"
   | hs (c : Nat) (ty : Ty) (k : CRef) (resp : RespRef)      -- every other well-formed handshake request
   | mal (c : Nat)                                           -- payload that is not JSON
-  | ban (ip : Nat) | unban (ip : Nat)                       -- BruteForceProtector.BanIP / UnbanIP (or expiry of a ban)
+  | ban (ip : Nat) | unban (ip : Nat)                       -- BruteForceProtector.BanIP (temporary, long) / UnbanIP
+  | banp (ip : Nat)                                         -- BanIP(ip, 0): a permanent ban
+  | bans (ip : Nat)                                         -- BanIP with a duration that has run out before the next event
   | bl (ip : Nat) | unbl (ip : Nat)                         -- IPManager.AddToBlacklist / RemoveFromBlacklist (one address)
   | blr (g : Nat) | unblr (g : Nat)                         -- the same for a CIDR range: range `g` covers addresses 2g, 2g+1
   | restart                                                 -- a new IPManager over the same storage replaces the live one
+  | wl (ip : Nat) | unwl (ip : Nat)                         -- IPManager.AddToWhitelist / RemoveFromWhitelist (one address)
+  | unexp (k : Nat)                                         -- the client's credentials never expire (ExpiresAt = nil)
+  | issue (fails : Bool)                                    -- from now on GenerateAnonymousCredentials fails / works again
   | refill (ip : Nat)                                       -- time passes for the anonymous-connection limiter
   | exp (k : Nat) | del (k : Nat) | strip (k : Nat) (st : SecState)   -- credentials expire / config deleted / stored secret becomes `st`
 deriving DecidableEq, Repr
@@ -94,15 +99,19 @@ structure Env where
   lastCh : Nat → Option Nat := fun _ => none
   prevCh : Nat → Option Nat := fun _ => none
   usedSeen : List Nat := []
-  xban : Nat → Bool := fun _ => false       -- ghost: banned by an explicit `ban` event (⊆ banned)
+  xban : Nat → Bool := fun _ => false       -- ghost: banned by an explicit `ban`/`banp` event (⊆ banned)
+  xperm : Nat → Bool := fun _ => false      -- ghost: permanently banned by an explicit `banp` event (⊆ perm)
   bl : Nat → Bool := fun _ => false         -- IPManager.blacklist
   blr : Nat → Bool := fun _ => false        -- IPManager.blacklist, CIDR entries (per range)
+  wl : Nat → Bool := fun _ => false         -- IPManager.whitelist (exact entries)
+  issueFails : Bool := false                -- fault: credential generation (storage / crypto) fails
   cl : Nat → ClientConfigT := fun _ => {}   -- ClientConfig per client number
 
 /-- `IPManager.findInList(ip, blacklist) != nil`: an exact entry for the address or a CIDR entry whose range contains
 it.  The blacklist is persisted (`saveToStorage` / `removeFromStorage`) and reloaded by `NewIPManager`
-(`loadFromStorage`), so it is the same for the live instance and for one created later over the same storage. -/
-def Env.blocked (g : Env) (ip : Nat) : Bool := g.bl ip || g.blr (ip / 2)
+(`loadFromStorage`), so it is the same for the live instance and for one created later over the same storage.
+A whitelisted address is never blocked (`IsAllowed` looks at the whitelist first). -/
+def Env.blocked (g : Env) (ip : Nat) : Bool := !g.wl ip && (g.bl ip || g.blr (ip / 2))
 
 /-- what a written HandshakeResponse looks like (or that none was written) -/
 inductive RespObs | ok | new (k : Nat) | ch (n : Nat) | fail | none | na
@@ -118,7 +127,8 @@ structure Srv where
   ctl : Nat → Option Ctl := fun _ => none     -- ClientRegistry.connMap
   closed : Nat → Bool := fun _ => false       -- the connection's StreamProcessor was closed (by eviction)
   reg : Nat → Option Nat := fun _ => none     -- ClientRegistry.clientIDMap (client ↦ ConnID)
-  banned : Nat → Bool := fun _ => false       -- BruteForceProtector.bannedIPs
+  banned : Nat → Bool := fun _ => false       -- BruteForceProtector.bannedIPs: a record that has not expired
+  perm : Nat → Bool := fun _ => false         -- … and that record is permanent (ExpiresAt zero)
   fails : Nat → Nat := fun _ => 0             -- failures inside the window (= TotalCount while no window elapses)
   rlUsed : Nat → Nat := fun _ => 0            -- tokens taken from the address's bucket
   nextNonce : Nat := 0
@@ -151,12 +161,18 @@ def Env.track (g : Env) (now nc : Nat) (e : Event) (r : RespObs) : Env :=
     | _ => g
   | .mal _ => g
   | .ban ip => { g with xban := upd g.xban ip true }
-  | .unban ip => { g with xban := upd g.xban ip false }
+  | .unban ip => { g with xban := upd g.xban ip false, xperm := upd g.xperm ip false }
+  | .banp ip => { g with xban := upd g.xban ip true, xperm := upd g.xperm ip true }
+  | .bans ip => if g.xperm ip then g else { g with xban := upd g.xban ip false }
   | .bl ip => { g with bl := upd g.bl ip true }
   | .unbl ip => { g with bl := upd g.bl ip false }
   | .blr r => { g with blr := upd g.blr r true }
   | .unblr r => { g with blr := upd g.blr r false }
   | .restart => g
+  | .wl ip => { g with wl := upd g.wl ip true }
+  | .unwl ip => { g with wl := upd g.wl ip false }
+  | .unexp k => if k < nc && !(g.cl k).deleted then { g with cl := upd g.cl k { g.cl k with ExpiresAt := none } } else g
+  | .issue b => { g with issueFails := b }
   | .refill _ => g
   | .exp k => if k < nc && !(g.cl k).deleted then { g with cl := upd g.cl k { g.cl k with ExpiresAt := some (now - 1) } } else g
   | .del k => if k < nc then { g with cl := upd g.cl k { g.cl k with deleted := true } } else g
@@ -167,7 +183,7 @@ def Env.track (g : Env) (now nc : Nat) (e : Event) (r : RespObs) : Env :=
 /-- `BruteForceProtector.RecordFailure`: count, then ban permanently at `PermanentBanAt`, else temporarily at `MaxFailures`. -/
 def recordFailure (s : Srv) (ip : Nat) : Srv :=
   if s.fails ip + 1 ≥ security.DefaultPermanentBanAt then
-    { s with fails := upd s.fails ip (s.fails ip + 1), banned := upd s.banned ip true }
+    { s with fails := upd s.fails ip (s.fails ip + 1), banned := upd s.banned ip true, perm := upd s.perm ip true }
   else if s.fails ip + 1 ≥ security.DefaultMaxFailures then
     { s with fails := upd s.fails ip (s.fails ip + 1), banned := upd s.banned ip true }
   else { s with fails := upd s.fails ip (s.fails ip + 1) }
@@ -212,6 +228,8 @@ def getClientConfig (s : Srv) : CRef → Option (Nat × ClientConfigT)
 
 /-- `handleFirstConnection`: new credentials, RecordSuccess, SetClientID, SetAuthenticated. -/
 def handleFirstConnection (s : Srv) (c ip : Nat) : Srv × HRes :=
+  if s.env.issueFails then (recordFailure s ip, .err)      -- GenerateAnonymousCredentials failed: RecordFailure, error
+  else
   (setCtl (recordSuccess { s with nClients := s.nClients + 1 } ip) c { getCtl s c with id := some s.nClients, auth := true },
    .issued s.nClients)
 
@@ -316,7 +334,10 @@ def stepCore (s : Srv) : Event → Srv × RespObs
   | .hs c ty k resp => handleHandshake s c ty { zeroId := k == .zero, first := false, k := k, resp := s.env.resolve resp }
   | .mal _ => (s, .none)                                              -- json.Unmarshal fails before anything else
   | .ban ip => ({ s with banned := upd s.banned ip true }, .na)
-  | .unban ip => ({ s with banned := upd s.banned ip false }, .na)
+  | .unban ip => ({ s with banned := upd s.banned ip false, perm := upd s.perm ip false }, .na)
+  | .banp ip => ({ s with banned := upd s.banned ip true, perm := upd s.perm ip true }, .na)
+  -- `banIP`: a temporary ban never replaces a permanent one; otherwise it replaces the record, and this one has run out
+  | .bans ip => (if s.perm ip then s else { s with banned := upd s.banned ip false }, .na)
   | .bl _ => (s, .na)
   | .unbl _ => (s, .na)
   | .blr _ => (s, .na)
@@ -324,6 +345,10 @@ def stepCore (s : Srv) : Event → Srv × RespObs
   | .restart => (s, .na)      -- `loadFromStorage` restores exactly what `saveToStorage`/`removeFromStorage` kept
   | .refill ip => ({ s with rlUsed := upd s.rlUsed ip 0 }, .na)
   | .exp _ => (s, .na)
+  | .wl _ => (s, .na)
+  | .unwl _ => (s, .na)
+  | .unexp _ => (s, .na)
+  | .issue _ => (s, .na)
   | .del _ => (s, .na)
   | .strip _ _ => (s, .na)
 
